@@ -24,7 +24,7 @@ TECHNIQUE = ('deterministic simulation of upgrade histories: forked database '
              'states, one process per run, fault injection at a statement '
              'index, convergence by the first fault-free run')
 PLAN = {
-    'quick': {'count': 160, 'max_wall': 170, 'shrink_budget': 20,
+    'quick': {'count': 260, 'max_wall': 170, 'shrink_budget': 20,
               'shrink_wall': 150},
     'thorough': {'count': 3000, 'max_wall': 1700, 'shrink_budget': 50,
                  'shrink_wall': 400},
